@@ -96,8 +96,17 @@ let () =
           (* "X" (Resolve + Reset of the wrapped collector by the caller) is not an operation of the event collector's
              model: the running totals, ids and the sampling cadence go on as if nothing had happened, and what was
              taken out is part of the decoded stream *)
-          let ops = if String.trim opss = "" || String.trim opss = "-" then []
-            else List.map op_of_string (List.filter (fun t -> t <> "X") (String.split_on_char ';' (String.trim opss))) in
+          (* "W:i:perf": the caller writes perf into object i and adds it again: a write on the model's heap
+             (Model/EventsAlias.v caller_write) followed by EvAgain i *)
+          let toks = if String.trim opss = "" || String.trim opss = "-" then []
+            else List.filter (fun t -> t <> "X") (String.split_on_char ';' (String.trim opss)) in
+          let parse_w t = (match String.index_from_opt t 2 ':' with
+              | Some j -> (nat_of_int (int_of_string (String.sub t 2 (j - 2))), perf_of_string (String.sub t (j + 1) (String.length t - j - 1)))
+              | None -> failwith ("bad W op " ^ t)) in
+          let xops = List.map (fun t -> if String.length t > 2 && t.[0] = 'W' then (let (i, p) = parse_w t in (EvAgain i, Some (i, p)))
+                                 else (op_of_string t, None)) toks in
+          let ops = List.map fst xops in
+          let has_write = List.exists (fun (_, w) -> w <> None) xops in
           let i_added = perfs_of_string addeds in
           let errs = if String.trim errs = "-" then "" else String.concat "" (String.split_on_char 'x' (String.trim errs)) in
           let (decerr, decstr) = (match String.index_opt (String.trim decs) ' ' with
@@ -125,7 +134,13 @@ let () =
                 | KSampling k -> if not (c14_ok_sampling k i_added w) then add "c14_ok_sampling=false"
                 | KPassthrough -> if not (c14_ok_passthrough i_added w) then add "c14_ok_passthrough=false")
            | None -> ());
-          if !why <> [] then violation (String.concat "; " (List.rev !why));
+          (* known finding C14-caller-write: the history re-uses an object the caller had added before, and the collector
+             is one that keeps the first object as its accumulator *)
+          let known_class = has_write && (match kind with KPassthrough -> false | _ -> true) in
+          if !why <> [] then begin
+            if known_class && List.for_all (fun w -> String.length w >= 7 && String.sub w 0 7 = "c14_ok_") !why then
+              Printf.printf "KNOWN caller-write %d %s :: %s\n" (ln + 1) (if String.length line > 300 then String.sub line 0 300 else line) (String.concat "; " (List.rev !why))
+            else violation (String.concat "; " (List.rev !why)) end;
           (* ---- correspondence with the model ---- *)
           (* the collectors behind "cum@ival0", "cum@rand101", "samp@ivalmax" are evaluated through their OWN model
              (Model/EventsMore.v: run_interval, run_rand) at the parameter values the harness uses, with a clock that
@@ -135,7 +150,15 @@ let () =
              C14_rand_over_100_is_cumulative); the two are compared below as well *)
           let raw_kind = (match split_ws hd with _ :: k0 :: _ -> k0 | _ -> "") in
           let still = List.map (fun _ -> Z0) ops in
-          let (st_k, tr_k) = model_obs_run kind ops in
+          let (st_k, tr_k) =
+            if not has_write then model_obs_run kind ops
+            else begin
+              let (stf, trf) = List.fold_left (fun (st, acc) (o, w) ->
+                  let (st', ob) = (match w with
+                      | Some (i, p) -> step_write kind st i p
+                      | None -> step kind st o) in
+                  (st', ob :: acc)) (init, []) xops in
+              (stf, List.rev trf) end in
           let (st, tr) = (match raw_kind with
               | "cum@ival0" -> let (ist, t) = run_interval Z0 still ops in (ist.i_base, t)
               | "samp@ivalmax" -> let (ist, t) = run_interval (z_of_string "3600000000000000") still ops in (ist.i_base, t)
